@@ -35,7 +35,20 @@ func Mangle(kind int, src string) string {
 		if err1 != nil || err2 != nil || string(a) != string(b) {
 			common.Fatalf("whitespace mangle is not a gofmt pre-image (%v %v)\n%s", err1, err2, out)
 		}
-		return out
+		// gofmt also rewrites doc comments: "//@immutable" becomes "// @immutable". Every column-0 annotation
+		// comment is written without the blank wherever that is a gofmt pre-image (it is for doc comments of
+		// top-level declarations and of the package clause; it is not for detached or nested comments).
+		for i, l := range lines {
+			if !strings.HasPrefix(l, "// @") {
+				continue
+			}
+			lines[i] = "//@" + l[4:]
+			c, err := format.Source([]byte(strings.Join(lines, "\n")))
+			if err != nil || string(c) != string(a) {
+				lines[i] = l
+			}
+		}
+		return strings.Join(lines, "\n")
 	case 2:
 		lines := strings.Split(src, "\n")
 		for i, l := range lines {
